@@ -91,6 +91,8 @@ type VC struct {
 	noSafety  bool
 	preludeError string
 	altLoops  bool // built with the alternative loop invariant sets
+	loopShift int  // loop invariants of the contract applied to the loops this many positions further down
+	loopSetsUsed map[int]bool // under a shift: the contract's loop ordinals whose invariant set was applied to some loop
 	refLoops  map[Term]map[string]bool // fresh ref -> loops active when it was allocated
 	mapKeys   map[string][]Term // map domain heap -> key terms used by the function (replay candidates)
 	lemma     *Lemma
